@@ -324,5 +324,5 @@ Proof. vm_compute. reflexivity. Qed.
 (** A 70000-byte file, the window 65535..65537 straddles the first buffer: two reads, chunks of 1 and 1 byte. *)
 Example ex_stream_loop : stream_loop true 65535 65537 [1; 4464; 0] = Ok [1; 1]
   /\ stream_reply true (Some (65535, 65537)) 70000 = Ok (2, 2) /\ stream_reply true None 200000 = Ok (200000, 200000)
-  /\ stream_reply true (Some (5, 2001)) 1000 = Ok (1996, 995).
+  /\ stream_reply true (Some (5, 2001)) 1000 = Ok (995, 995).
 Proof. vm_compute. repeat split. Qed.
